@@ -11,6 +11,7 @@ var Registry = map[string]PropRun{
 	"C01": {"other", RunC01},
 	"C02": {"other", RunC02},
 	"C04": {"proof", RunC04},
+	"C11": {"other", RunC11},
 	"C13": {"other", RunC13},
 	"C17": {"proof", RunC17},
 	"C18": {"proof", RunC18},
